@@ -40,7 +40,7 @@ struct upump_mock_mgr {
     unsigned n_pumps;
     bool dead;
     struct upump_common_mgr common_mgr;
-    uint8_t upool_extra[];
+    void *upool_extra;      /* separate allocation: keeps this struct a typed (field-sensitive) object for CBMC */
 };
 UBASE_FROM_TO(upump_mock_mgr, upump_mgr, upump_mgr, common_mgr.mgr)
 UBASE_FROM_TO(upump_mock_mgr, urefcount, urefcount, urefcount)
@@ -177,12 +177,15 @@ static void mock_mgr_free(struct urefcount *urefcount)
     upump_common_mgr_clean(upump_mock_mgr_to_upump_mgr(mm));
     mm->dead = true;
     urefcount_clean(urefcount);
+    free(mm->upool_extra);
     free(mm);
 }
 static struct upump_mgr *mock_mgr_alloc(void)
 {
-    struct upump_mock_mgr *mm = malloc(sizeof(struct upump_mock_mgr) + upump_common_mgr_sizeof(0, 0) + 16);
+    struct upump_mock_mgr *mm = malloc(sizeof(struct upump_mock_mgr));
     VASSUME(mm != NULL);
+    mm->upool_extra = malloc(upump_common_mgr_sizeof(0, 0) + 16);
+    VASSUME(mm->upool_extra != NULL);
     struct upump_mgr *mgr = upump_mock_mgr_to_upump_mgr(mm);
     mgr->signature = UBASE_FOURCC('m', 'o', 'c', 'k');
     urefcount_init(upump_mock_mgr_to_urefcount(mm), mock_mgr_free);
